@@ -132,7 +132,8 @@ class Rec:
 
     def tmpdir(self):
         if self.tmp is None:
-            self.tmp = tempfile.mkdtemp(prefix=f"vcheck-{self.pid}-")
+            base = os.environ.get("VERIF_SCRATCH")
+            self.tmp = tempfile.mkdtemp(prefix=f"vcheck-{self.pid}-", dir=base if base and os.path.isdir(base) else None)
         return self.tmp
 
     def cleanup(self):
